@@ -460,6 +460,38 @@ def r19_8(chk, facts):
                     f['l'], i.get('m') or 'its allocator base', A.canon(e)[:60], al[0]['n']), None, f['q'])
     chk.require(n >= 8, 'R19.8: only %d allocator initialisations found in the container constructors' % n)
 
+def r19_9(chk, tier):
+    """An allocation failure is not turned into an ordinary answer."""
+    chk.rule('R19.9', 'catch-all handlers: every `catch (...)` of the library either rethrows, follows a handler of the same try that rethrows '
+                      'std::bad_alloc, or stands in a destructor or in an exception class\'s what() (which must not throw); a catch-all that '
+                      'answers "invalid" / false swallows std::bad_alloc and reports an allocation failure as a verdict about the data', floor=10)
+    n = 0; seen = set()
+    for unit in ('core', 'jsonschema', 'reflect', 'jsonpath', 'jmespath', 'csv', 'cbor', 'ubjson'):
+        facts = F.load([unit], tier)
+        if unit not in chk.units: chk.units.append(unit)
+        for fn in sorted(facts.functions, key=lambda f: bool(f.get('dep'))):
+            if fn.get('body') is None or not fn['file'].startswith('include/'): continue
+            for t in A.walk(fn['body']):
+                if t.get('k') != 'CXXTryStmt': continue
+                hs = t.get('handlers') or []
+                for i, h in enumerate(hs):
+                    if h.get('ct'): continue          # a typed handler
+                    key = (fn['file'], h.get('l'))
+                    if key in seen: continue
+                    seen.add(key); n += 1
+                    def rethrows(hh):
+                        return any(y.get('k') == 'CXXThrowExpr' and y.get('sub') is None for y in A.walk(hh.get('body') or {}))
+                    prior = any(rethrows(p_) and 'bad_alloc' in (fn['_types'][p_['ct'] - 1] if p_.get('ct') else '') for p_ in hs[:i])
+                    site = '%s:%s catch-all at line %s' % (fn['file'], fn['n'], h.get('l'))
+                    # a noexcept function (the constructors of the exception classes build their message under catch-all) cannot let anything out
+                    ok = rethrows(h) or prior or fn.get('fk') == 'CXXDestructor' or fn.get('nothrow') or fn['n'] in ('what', 'message') or fn['n'].startswith('~')
+                    if ok: chk.ok('R19.9', site, None)
+                    else:
+                        chk.analysed(fn)
+                        chk.fail('R19.9', site, fn['file'], h.get('l'), '%s: `catch (...)` at line %s neither rethrows nor is preceded by a handler that rethrows std::bad_alloc: an allocation failure '
+                                 'inside the try is reported as an ordinary result' % (fn['n'], h.get('l')), None, fn['q'])
+    chk.require(n >= 10, 'R19.9: only %d catch-all handlers found' % n)
+
 def run(chk, tier, only_rule=None):
     chk.explanation = EXPLANATION
     chk.not_decided = NOT_DECIDED
@@ -470,6 +502,7 @@ def run(chk, tier, only_rule=None):
     r19_3(chk, facts)
     r19_7(chk, facts)
     r19_8(chk, facts)
+    r19_9(chk, tier)
     r19_6(chk, tier)
     r19_4(chk, tier)
     from . import c15
